@@ -271,7 +271,7 @@ func (v *Verifier) newCtx(fn *ssa.Function, con *Contract) *FuncCtx {
 	c := &FuncCtx{v: v, sc: newScript(math), top: fn, topCon: con, keys: map[string]keyInfo{}, initMemo: map[string]Term{},
 		structs: map[string]*structInfo{}, structNames: map[string]*structInfo{}, tags: map[string]int{}, tagTypes: map[int]types.Type{},
 		assumptions: map[string]bool{}, trustedUsed: map[string]bool{}, unmodelled: map[string]bool{}, oblCount: map[string]int{},
-		pureDecl: map[string]bool{}, constGlobals: map[string]Term{}, uncontracted: map[string]bool{}, calleeContracts: map[string]bool{}, pureSig: map[string]string{}}
+		pureDecl: map[string]bool{}, constGlobals: map[string]Term{}, uncontracted: map[string]bool{}, autoInlined: map[string]bool{}, calleeContracts: map[string]bool{}, pureSig: map[string]string{}}
 	c.guard = tTrue
 	c.sc.onAssume = c.noteAssumption
 	if con != nil {
@@ -427,6 +427,12 @@ func (v *Verifier) verifyFunc(fn *ssa.Function, con *Contract) (res *FuncResult)
 		}
 	}
 	for _, cl := range con.Invs {
+		if cl.LoopAnchor != "" {
+			if fr.anchorOrdinal(cl.LoopAnchor) == 0 {
+				c.stale = append(c.stale, fmt.Sprintf("%s:%d: no loop of the function calls %s", cl.File, cl.Line, cl.LoopAnchor))
+			}
+			continue
+		}
 		if cl.Loop < 1 || cl.Loop > len(fr.loops.heads) {
 			c.stale = append(c.stale, fmt.Sprintf("%s:%d: loop ordinal %d out of range (function has %d loops)", cl.File, cl.Line, cl.Loop, len(fr.loops.heads)))
 		}
